@@ -46,10 +46,12 @@ def plan(tier, seed):
     specs.append({'shard': 'population-%d' % i, 'seeds': S // nsh,
                   'findbias': (1 if q else 2) if True else 0,
                   'logn': 20, 'weight': 6})
-  if not q:
-    for i in range(6):
-      specs.append({'shard': 'population22-%d' % i, 'seeds': 2, 'findbias': 0,
-                    'logn': 22, 'weight': 12})
+  # the upper end of the property's size range (2^20..2^24 bits): parameter
+  # ladders and truncations behave differently there
+  for i, logn in enumerate([23, 24, 22, 24, 22, 23, 22, 23, 24] * (1 if q else 3)):
+    specs.append({'shard': 'population%d-%d' % (logn, i), 'seeds': 1,
+                  'findbias': 0, 'logn': logn, 'weight': 14,
+                  'timeout': 3000})
   k = 0
   for g in FINDBIAS_GENS:
     for logn in (16, 18, 20):
